@@ -16,8 +16,8 @@ def bundleCheckValid : List String := ["b.forEachBlock(func(blck block) { if blc
   "  for _, cb := range b.CanonicalBlocks",
   "    if cb.BlockControlFlags.Has(StatusReportBlock)",
   "      errs = multierror.Append(errs, fmt.Errorf(\"Bundle: Bundle Processing Control Flags indicate that \"+ \"this bundle's payload is an administrative record or the source \"+ \"node is omitted, but the \\\"Transmit status report if block \"+ \"cannot be processed\\\" Block Processing Control Flag was set in a \"+ \"Canonical Block\"))",
-  "// Check uniqueness of block numbers var cbBlockNumbers = make(map[uint64]bool)",
-  "// Check max 1 occurrence of extension blocks var cbBlockTypes = make(map[uint64]bool)",
+  "var cbBlockNumbers = make(map[uint64]bool)",
+  "var cbBlockTypes = make(map[uint64]bool)",
   "for _, cb := range b.CanonicalBlocks",
   "  if _, ok := cbBlockNumbers[cb.BlockNumber]; ok",
   "    errs = multierror.Append(errs, fmt.Errorf(\"Bundle: Block number %d occurred multiple times\", cb.BlockNumber))",
